@@ -6,9 +6,12 @@
 (* and moves every agent at most one cell; a state in which an agent stands on its own   *)
 (* goal leads to the terminal state, which is absorbing and pays nothing.                *)
 (*                                                                                      *)
-(* (M) a layout (record read from the batch): W x H grid, obstacles, directional walls   *)
-(*     and fences (pairs <<start, end>> of cells), goals with owners, two agents, fence   *)
-(*     success probability PN/PD, collision rule, reward parameters.  Cells are <<x, y>>. *)
+(* (M) a layout (record read from the batch): W x H grid, obst (cells), walls and fences  *)
+(*     (directional: pairs <<start, end>> of cells), goals [cell, owners], init (the two   *)
+(*     agents' cells), fence success probability PN/PD, hack (1: collision_prob=None,      *)
+(*     "nobody moves if a collision was possible"; 0: collision_prob=.5), rewards GR/SC/CC, *)
+(*     states (closure recorded from the real code, used by the trace module), capped,     *)
+(*     fine.  Cells are <<x, y>>, y upwards.                                               *)
 (* (O) the allowed-move relation: clause predicates OffGrid, InObstacle, ThroughWall,     *)
 (*     Shared, Swapped, BadMove, ... over one outcome (s, ja, n).  Deliberately an upper  *)
 (*     bound: "nobody moves if a collision was possible" and the epsilon probability of   *)
@@ -23,6 +26,9 @@
 (*       Sample      one positive-weight outcome becomes the next state                   *)
 (*     Exact weights: a joint row carries the pair <<w1, w2>> of per-agent numerators      *)
 (*     (their product would not fit TLC's 32-bit integers); P(row) = w1*w2 / sum.          *)
+(*     Layouts with L.fine = 1 (few reachable states) run the three steps as three         *)
+(*     actions; for the others Choose composes the same operators in one action so that    *)
+(*     fewer intermediate states are stored.                                               *)
 (* (P) NoSharedCell, NoSwap, InGrid, NotInObstacle, NotThroughWall, OneCellCommanded,      *)
 (*     GoalLeadsToTerminal, TerminalAbsorbing, Normalisable, StateValid,                   *)
 (*     AgentTablesNormalised, FenceSuccessExact - over every reachable state of every      *)
